@@ -168,7 +168,32 @@ class Gen:
         cfgslots = lambda c: [s for s, k in SLOTS[c].items() if k == "ocfg"]
         # back edges (cycles) and forward sharing through later assignments
         if r.random() < p_cycle:
+            # genuine cycles first: a back edge i -> j (j later) closes a cycle when j already reaches i; cycles of
+            # several nodes give cycle references at distance >= 2 (a self reference is at distance 1)
+            def kwrefs(v):
+                if v["t"] == "ref":
+                    return [v["n"]]
+                if v["t"] == "list":
+                    return [m for x in v["v"] for m in kwrefs(x)]
+                if v["t"] == "dict":
+                    return [m for _, x in v["v"] for m in kwrefs(x)]
+                return []
+            succ = {i: [m for _, v in nodes[i]["kw"] for m in kwrefs(v)] for i in range(n)}
+
+            def reach(j):
+                seen, todo = set(), [j]
+                while todo:
+                    m = todo.pop()
+                    if m not in seen:
+                        seen.add(m)
+                        todo.extend(succ[m])
+                return seen
+            closing = [(i, j) for j in range(n) for i in reach(j) if i < j and cfgslots(nodes[i]["cls"])]
             for _ in range(r.choice([1, 1, 2, 3])):
+                if closing and r.random() < 0.7:
+                    i, j = r.choice(closing)
+                    actions.append(dict(a="set", n=i, name=r.choice(cfgslots(nodes[i]["cls"])), v=vref(j)))
+                    continue
                 i = r.randrange(n)
                 ss = cfgslots(nodes[i]["cls"])
                 if ss:
@@ -542,7 +567,7 @@ def signature_edit(rng, desc, prefer=None):
     kinds = ["scalar", "list-swap", "list-move", "dict-rename", "dict-move", "sibling-move", "list-len", "constant",
              "type-identifier", "pre-task", "init-order", "enum-member", "dict-swap-values", "nested-move",
              "optional-none-vs-default", "listdict-move", "listdict-empty-swap", "upstream-task", "upstream-task",
-             "pre-to-init", "pre-to-init"]
+             "pre-to-init", "pre-to-init", "cycle-target", "cycle-target"]
     rng.shuffle(kinds)
     if prefer:
         kinds = [prefer] + [k for k in kinds if k != prefer]
@@ -734,6 +759,25 @@ def signature_edit(rng, desc, prefer=None):
                 d["nodes"].append(dict(cls="Pre", kw=[["v", vint(rng.choice([901, 902, 903]))]]))
                 d["actions"].insert(0, dict(a="pre", n=i, ids=[len(d["nodes"]) - 1]))
                 return d, kind, i, "full"
+            if kind == "cycle-target" and prefer == "cycle-target" and rng.random() < 0.8:
+                # constructive form: R -> S -> T and a back reference from T to R (side a) or to S (side b): same nodes,
+                # same values, the cycle reference points at another ancestor; compared at R
+                base = copy.deepcopy(d)
+                x = rng.choice([0, 1, 5])
+                for g_ in (base, d):
+                    g_["nodes"].append(dict(cls="Inner", kw=[["x", vint(x)], ["name", vstr("t")]]))
+                    T = len(g_["nodes"]) - 1
+                    g_["nodes"].append(dict(cls="Inner", kw=[["c", vref(T)], ["name", vstr("s")]]))
+                    g_["nodes"].append(dict(cls="Inner", kw=[["c", vref(T + 1)], ["name", vstr("r")]]))
+                T = len(d["nodes"]) - 3
+                slot = rng.choice(["d", "c"])
+                base["actions"].append(dict(a="set", n=T, name=slot, v=vref(T + 2)))
+                d["actions"].append(dict(a="set", n=T, name=slot, v=vref(T + 1)))
+                d["base"] = base
+                d["edited_node"] = T
+                return d, kind, T + 2, "raw"
+            if kind == "cycle-target":
+                continue            # only the constructive form above (asked for by the caller's quota)
             if kind == "upstream-task":
                 # node i holds the OUTPUT of a task T (a "set" action or a keyword whose value is out(T)): a different
                 # parameter of T must change the identifier of i (the producing task is part of the signature)
